@@ -89,6 +89,10 @@ func configsFor(part string, thorough bool) []*xcfg {
 			{Name: "2v+nonvoting", Voters: []uint64{1, 2}, NonVotings: []uint64{3}, Fifo: true, MaxTerm: 3, MaxIndex: 4, Timeouts: 2, Proposals: 1, Crashes: pick(0, 1)},
 			{Name: "1v", Voters: []uint64{1}, Fifo: true, MaxTerm: 4, MaxIndex: 5, Timeouts: 3, Proposals: 2, Crashes: 2},
 			{Name: "2v", Voters: []uint64{1, 2}, Fifo: true, MaxTerm: 4, MaxIndex: 5, Timeouts: 3, Proposals: 1, Crashes: 1, Drops: 1},
+			{Name: "5v-reelected-leader-dev", Voters: []uint64{1, 2, 3, 4, 5}, Fifo: true, MaxDev: pick(1, 2), MaxTerm: 7, MaxIndex: 12, Partitions: 1, Drops: 1, Timeouts: pick(0, 1),
+				// leader 1 replicates an uncommitted tail to 2 only, {3,4,5} elect 3 which overwrites that
+				// tail on 2 and on 1, then 1 is elected again (its per-follower progress must start afresh)
+				Script: []string{"T1", "H1", "M3", "P1", "P1", "T3", "H3", "M1", "H3", "H3", "E", "H3", "H3", "T1", "H1", "P1", "H1"}},
 			{Name: "5v-dev", Voters: []uint64{1, 2, 3, 4, 5}, Fifo: true, MaxDev: 2, MaxTerm: 6, MaxIndex: 8, Timeouts: pick(2, 3), Crashes: 1, Drops: pick(2, 3), Proposals: pick(0, 1),
 				Script: pickS([]string{"T1", "P1", "T5"}, []string{"T1", "H1", "P1", "T5", "H5"})},
 			{Name: "3v-partition-dev", Voters: v3, Fifo: true, CheckQuorum: true, MaxDev: pick(2, 3), MaxTerm: 7, MaxIndex: 9, Timeouts: 2, Partitions: 2, Leases: 1, CheckQuorums: 1, Proposals: 1,
